@@ -67,14 +67,15 @@ class SchemaSim final : public Engine {
   // texts of every constituent after a translation: expected = simultaneous map on whole identifiers / entity references
   bool CheckTranslated(Ctx& c, const RSForm& f, const std::vector<Snap>& before, const std::map<std::string, std::string>& m, const std::string& trig, const std::set<EntityUID>& skip = {}) {
     c.Oracle("translated_texts");
+    const char* tp = Is("C12") ? "C12" : "C08";   // "every mention of a removed or renamed constituent is rewritten to its image" is C12's own clause for its operations
     for (auto& s : before) {
       if (skip.count(s.uid) || !f.Contains(s.uid)) continue;
       const auto& rs = f.GetRS(s.uid); const auto& tx = f.GetText(s.uid);
       auto disc = [&](const std::string& text) { for (auto& [o, n] : m) for (auto& [o2, n2] : m) if (o != o2 && (o2.rfind(o, 0) == 0)) return std::string("/prefix-name"); (void)text; return m.size() > 1 ? std::string("/multi") : std::string(); };
-      if (const auto e = idscan::Translate(s.def, m); rs.definition != e) { c.Fail("C08", "translated_definition", trig + disc(s.def), s.alias + ": definition '" + s.def + "' became '" + rs.definition + "' expected '" + e + "'"); return false; }
-      if (const auto e = idscan::Translate(s.conv, m); rs.convention != e) { c.Fail("C08", "translated_convention", trig, s.alias + ": convention '" + s.conv + "' became '" + rs.convention + "' expected '" + e + "'"); return false; }
-      if (const auto e = refscan::TranslateRefs(s.term, m); tx.term.Text().Raw() != e) { c.Fail("C08", "translated_term", trig, s.alias + ": term '" + s.term + "' became '" + tx.term.Text().Raw() + "' expected '" + e + "'"); return false; }
-      if (const auto e = refscan::TranslateRefs(s.text, m); tx.definition.Raw() != e) { c.Fail("C08", "translated_textdef", trig, s.alias + ": text definition '" + s.text + "' became '" + tx.definition.Raw() + "' expected '" + e + "'"); return false; }
+      if (const auto e = idscan::Translate(s.def, m); rs.definition != e) { c.Fail(tp, "translated_definition", trig + disc(s.def), s.alias + ": definition '" + s.def + "' became '" + rs.definition + "' expected '" + e + "'"); return false; }
+      if (const auto e = idscan::Translate(s.conv, m); rs.convention != e) { c.Fail(tp, "translated_convention", trig, s.alias + ": convention '" + s.conv + "' became '" + rs.convention + "' expected '" + e + "'"); return false; }
+      if (const auto e = refscan::TranslateRefs(s.term, m); tx.term.Text().Raw() != e) { c.Fail(tp, "translated_term", trig, s.alias + ": term '" + s.term + "' became '" + tx.term.Text().Raw() + "' expected '" + e + "'"); return false; }
+      if (const auto e = refscan::TranslateRefs(s.text, m); tx.definition.Raw() != e) { c.Fail(tp, "translated_textdef", trig, s.alias + ": text definition '" + s.text + "' became '" + tx.definition.Raw() + "' expected '" + e + "'"); return false; }
     }
     return true;
   }
@@ -93,6 +94,7 @@ class SchemaSim final : public Engine {
     return true;
   }
 
+  int dupPending{ 0 };   // generation only: a duplicate definition was just produced; collapse duplicates soon, while the pair still exists
   // ---------------------------------------------------------------- generation helpers
   std::string GenDefFor(Ctx& c, const RSForm& f, CstType type) {
     auto& r = c.gen;
@@ -101,8 +103,8 @@ class SchemaSim final : public Engine {
     g.siblingReuse = r.Pct(12); g.nearMiss = r.Pct(25) ? 10 : 0;
     std::string def;
     if (r.Pct(static_cast<int>(c.C("p_dup", 8)))) {   // duplicate of an existing definition (same text or same tree, different spelling)
-      std::vector<std::string> defs; for (const auto uid : f.List()) if (!f.GetRS(uid).definition.empty()) defs.push_back(f.GetRS(uid).definition);
-      if (!defs.empty()) { def = r.Pick(defs); if (r.Pct(50)) def = r.Pct(50) ? " " + def + " " : "(" + def + ")"; return def; }
+      std::vector<std::string> defs; for (const auto uid : f.List()) if (!f.GetRS(uid).definition.empty() && (f.GetRS(uid).type == type || r.Pct(20))) defs.push_back(f.GetRS(uid).definition);   // mostly of the same kind: only those are duplicates
+      if (!defs.empty()) { def = r.Pick(defs); c.Probe("duplicate_definition_generated"); dupPending = 3; if (r.Pct(40)) def = r.Pct(50) ? " " + def + " " : "(" + def + ")"; return def; }
     }
     switch (type) {
     case CstType::base: case CstType::constant: def = r.Pct(92) ? "" : g.TopLevel(false); break;
@@ -152,15 +154,15 @@ public:
     c["observe"] = r.Pct(60) ? 1 : r.Pct(60) ? r.Range(2, 5) : 0;    // every step / every k-th / end only
     c["w_create"] = r.Range(3, 8); c["w_expr"] = r.Range(2, 8); c["w_text"] = r.Range(0, 6); c["w_rename"] = r.Range(0, 4);
     c["w_struct"] = r.Range(1, 4); c["w_track"] = r.Range(0, 2); c["w_ops"] = r.Range(0, 3); c["w_persist"] = r.Range(0, 3); c["w_api"] = r.Range(0, 2);
-    if (focus_ == "C08") { c["w_rename"] = r.Range(4, 10); c["observe"] = 1; }
-    if (focus_ == "C09") { c["w_struct"] = r.Range(2, 6); c["w_track"] = r.Range(1, 4); c["p_dup"] = r.Range(5, 30); c["w_ops"] = r.Range(1, 4); c["ops_dedupe_bias"] = 1; }
+    if (focus_ == "C08") { c["w_rename"] = r.Range(4, 10); c["observe"] = 1; if (r.Pct(55)) { c["w_ops"] = r.Range(2, 5); c["p_dup"] = r.Range(15, 45); c["ops_dedupe_bias"] = 1; c["w_text"] = r.Range(2, 6); } }   // "every other identifier translation": duplicate collapse / equation with text mentions
+    if (focus_ == "C09") { c["w_struct"] = r.Range(2, 6); c["w_track"] = r.Range(1, 4); c["p_dup"] = r.Range(15, 45); c["w_ops"] = r.Range(1, 4); c["ops_dedupe_bias"] = 1; }
     if (focus_ == "C10") { c["w_persist"] = r.Range(3, 8); c["w_text"] = r.Range(2, 8); }
-    if (focus_ == "C12") { c["w_ops"] = r.Range(4, 10); c["docs"] = r.Range(2, 3); c["p_mutant"] = r.Pct(60) ? 0 : r.Range(5, 20); }
+    if (focus_ == "C12") { c["w_ops"] = r.Range(4, 10); c["docs"] = r.Range(2, 3); c["p_mutant"] = r.Pct(60) ? 0 : r.Range(5, 20); if (r.Pct(35)) { c["p_dup"] = r.Range(15, 45); c["ops_dedupe_bias"] = 1; c["w_text"] = r.Range(2, 6); } }
     if (focus_ == "C04") { c["w_api"] = r.Range(3, 8); c["w_persist"] = r.Range(3, 8); c["p_mutant"] = r.Range(20, 60); }
     return c;
   }
   void Begin(Ctx& c) override {
-    focus = c.focus;
+    focus = c.focus; dupPending = 0;
     proc = InstallTextProc(); proc->limit = static_cast<size_t>(c.C("inflect_limit", 24));
     c.Count("knob.inflect_limit=" + std::to_string(proc->limit));
     docs.clear(); docs.resize(static_cast<size_t>(c.C("docs", 1)));
